@@ -1050,7 +1050,9 @@ func prewriteMutation(db *leveldb.DB, batch *leveldb.Batch,
 			// The minCommitTS has been pushed forward.
 			minCommitTS = dec.lock.minCommitTS
 		}
-		_, err = checkConflictValue(iter, mutation, startTS, startTS, false, assertionLevel, false, false)
+		// The pessimistic lock already protects the key from its for-update ts on, so a newer
+		// commit is not a write conflict here; the rollback and assertion checks still apply.
+		_, err = checkConflictValue(iter, mutation, math.MaxUint64, startTS, false, assertionLevel, false, false)
 		if err != nil {
 			return err
 		}
